@@ -806,6 +806,16 @@ func (g *gstate) fillMessage(fi *fileInfo, m *msgInfo) {
 			f.OneofIndex = proto.Int32(*inOneof)
 		}
 		g.fieldExtras(fi, f, repeated, inOneof != nil, isMap, false)
+		if f.GetProto3Optional() && g.rng.Chance(0.2) {
+			// names with a leading underscore exercise protoc's synthetic-oneof naming rule
+			nn := "_" + f.GetName()
+			if _, ok := g.used[joinName(m.fqn, nn)]; !ok {
+				g.claim(joinName(m.fqn, nn))
+				f.Name = proto.String(nn)
+				f.JsonName = proto.String(jsonName(nn))
+				g.tag("field:leading-underscore")
+			}
+		}
 		d.Field = append(d.Field, f)
 		if inOneof != nil {
 			oneofLeft--
@@ -818,15 +828,26 @@ func (g *gstate) fillMessage(fi *fileInfo, m *msgInfo) {
 	// a oneof that was started by the last iteration always has >= 1 field (fields are added right after).
 	// synthetic oneofs for proto3 optional fields, after all real oneofs, in field order
 	if syn == "proto3" {
+		// protoc's rule (parser.cc GenerateSyntheticOneofs): the names to avoid are the field and oneof
+		// names of the message; '_' is prepended unless the name already starts with one; 'X' is
+		// prepended until the name is free.
+		names := map[string]bool{}
+		for _, f := range d.Field {
+			names[f.GetName()] = true
+		}
+		for _, o := range d.OneofDecl {
+			names[o.GetName()] = true
+		}
 		for _, f := range d.Field {
 			if f.GetProto3Optional() {
-				name := "_" + f.GetName()
-				for {
-					if _, ok := g.used[joinName(m.fqn, name)]; !ok {
-						break
-					}
+				name := f.GetName()
+				if !strings.HasPrefix(name, "_") {
+					name = "_" + name
+				}
+				for names[name] {
 					name = "X" + name
 				}
+				names[name] = true
 				g.claim(joinName(m.fqn, name))
 				d.OneofDecl = append(d.OneofDecl, &descriptorpb.OneofDescriptorProto{Name: proto.String(name)})
 				f.OneofIndex = proto.Int32(int32(len(d.OneofDecl) - 1))
